@@ -35,7 +35,7 @@ CHECKS = {
         text='Sequential inductive step on the real RangeLock + std::set header code: from every state reachable by two (quick) / three (thorough) symbolic try_lock_wait2 calls, one of '
              'try_lock_wait2 / try_lock_wait / adjust_range / unlock(handle) / unlock(range) with symbolic 64-bit arguments (zero length, saturating end, nested, adjacent), then a symbolic '
              'probe: a granted range never shares a byte with a held one, a non-conflicting request is granted, the conflict report of try_lock_wait lies inside a held range.',
-        note='Sequential jobs cover the disjointness half; the wake-up half (a waiter on a conflicting range proceeds after unlock) runs on the contract-level thread engine in the thorough tier (too slow for quick).  libstdc++ red-black '
+        note='Sequential jobs cover the disjointness half; the wake-up half (a waiter on a conflicting range proceeds after unlock; 2 lockers with overlapping symbolic ranges) runs on the contract-level thread engine (wake_2t, ~6 min).  libstdc++ red-black '
              'rebalancing replaced by unbalanced-BST stand-ins with the same ordering contract; cv wait/notify are sequential stubs.  Found and fixed (b3d9cd8): locking the same empty range twice corrupted the index.',
         technique=TECH, design_ref='DESIGN.md §3 C18'),
     'C01': dict(
@@ -69,13 +69,13 @@ CHECKS = {
     'C06': dict(
         text='qrwlock (header-only, real lock/unlock/do_lock/try_wake/__trylock*/__unlock_*) with condition_variable and spinlock hand-over as contracts: 2 lockers in W/R, R/W and symbolic modes (3 symbolic lockers in thorough), '
              'timeouts never/finite, every holder yields inside: a writer is alone, readers never share with a writer, a failed lock leaves lock_state free at quiescence, and no locker without deadline is left blocked (deadlock check).  '
-             'rwlock (mutex + cv real, on K) W/R scenario in addition.',
-        note='qrwlock\'s own protocol is real; cv / spinlock re-acquisition are the contracts of rt/ksync.h (their subject is C03).  rwlock (the mutex + cv based lock) is NOT decided: its harness exists (USE_RWLOCK, real mutex + cv on K) but the 2-locker formula (40 M variables) exhausts the SAT solver\'s memory (DESIGN 7.5).  A lost-wake-up change that needs 4 lockers is caught by the thorough job qrw_W_R_Wt_R only.  Interrupts, try_lock and pre-emption between atomic steps on several vCPUs are outside.',
+             'qrw_W_R_mv: the two lockers on different vCPUs (pre-emption before every atomic operation).  rwlock (real rwlock::lock / unlock with the real mutex + condition_variable on kernel contract K, waiter marks read from the real wait queue): W/R, R/W and 2 symbolic lockers (3 in thorough), same assertions on rwlock.state.',
+        note='qrwlock\'s own protocol is real; cv / spinlock re-acquisition are the contracts of rt/ksync.h (their subject is C03).  A lost-wake-up change that needs 4 lockers is caught by the thorough job qrw_W_R_Wt_R only.  Interrupts, try_lock and pre-emption between atomic steps on several vCPUs are outside.',
         technique='bounded-context-switch sequentialisation of the real code (ir2c --thread) + CBMC', design_ref='DESIGN.md §3 C06, §7.1'),
     'C07': dict(
         text='MPMC, batch-MPMC and SPSC ring queues (capacity 2) as sequentialised threads that may be pre-empted before every atomic operation: 1 producer + 1 consumer, symbolic 64-bit start position (wrap-around included): '
              'every successfully pushed element is popped exactly once (drain at the end), nothing else is returned, per-producer order, never more than capacity.',
-        note='Very small bound (1P+1C, 1-2 operations each, <= 5-6 slices, SC only) because pre-emptive sequentialisation costs 4 min / 4 GB per job; RingChannel notification protocol, more producers/consumers and TSO are outside.  '
+        note='Very small bound (1P+1C, 1-2 operations each, <= 5-6 slices, SC only) because pre-emptive sequentialisation costs 4 min / 4 GB per job; The RingChannel notification protocol (consumer idle registration vs. producer idler check; sender notification on a full ring) is decided in the thorough tier only (chan_1p1c, chan_full_1p1c: 9 min each; semaphores as contracts, state invariant judged between any two slices).  More producers/consumers and TSO are outside.  '
              'Retry loops are unwound 4 times without unwinding assertions (stated bound).',
         technique='bounded-context-switch sequentialisation with pre-emption at atomic operations (ir2c --thread --cs-atomic-only) + CBMC', design_ref='DESIGN.md §3 C07, §7.1'),
     'C09': dict(
